@@ -72,19 +72,26 @@ theorem drop_take_succ (sm : List String) (a n : Nat) (h : a < sm.length) :
   rw [List.drop_eq_getElem_cons h]
   rfl
 
-theorem stmtLoop_spec (sm : List String) :
+/-- the persisted record only has to agree with the in-memory revision on progress (the file hash of
+the in-memory revision may have been refreshed); exact equality is needed when nothing is left to run. -/
+theorem stmtLoop_spec_weak (sm : List String) :
     ∀ (rest : List Text) (w : World) (r : Revision),
-      findRev r.version w.revs = some r → r.applied + rest.length ≤ sm.length →
+      (rest = [] → findRev r.version w.revs = some r) →
+      (∃ p, findRev r.version w.revs = some p ∧ p.applied = r.applied ∧ p.total = r.total ∧
+        p.partialHashes = r.partialHashes) →
+      r.applied + rest.length ≤ sm.length →
       LoopPost sm rest w r (stmtLoop sm rest w r) := by
   intro rest
   induction rest with
   | nil =>
-    intro w r hp _
+    intro w r hnil _ _
+    have hp := hnil rfl
     refine ⟨fun v _ => by simp [stmtLoop], ⟨[], by simp [stmtLoop]⟩, by simp [stmtLoop], ?_⟩
     left
     simp [stmtLoop, hp]
   | cons s rest ih =>
-    intro w r hp hlen
+    intro w r _ hweak hlen
+    obtain ⟨p0, hp, hp0a, hp0t, hp0p⟩ := hweak
     have hal : r.applied < sm.length := by simp at hlen; omega
     unfold stmtLoop
     rcases hE : execStmt w s with ⟨w1, b⟩
@@ -94,8 +101,8 @@ theorem stmtLoop_spec (sm : List String) :
       simp only
       refine ⟨fun v _ => by rw [hw1], ⟨[s], by rw [hw1]⟩, by rw [hw1], ?_⟩
       right; left
-      refine ⟨0, by simp, rfl, by rw [hw1]; simp, by rw [hw1], by simp, rfl, rfl, by simp, r,
-        by rw [hw1]; exact hp, by simp, rfl, by simp⟩
+      refine ⟨0, by simp, rfl, by rw [hw1]; simp, by rw [hw1], by simp, rfl, rfl, by simp, p0,
+        by rw [hw1]; exact hp, by simp [hp0a], hp0t, by simp [hp0p]⟩
     · rw [hE] at hb hw1; simp only at hb hw1; subst hb
       simp only
       have hw1j : w1.journal = w.journal ++ [s] := by rw [hw1]
@@ -115,7 +122,7 @@ theorem stmtLoop_spec (sm : List String) :
         refine ⟨fun v _ => by rw [hwr]; simp [hw1r], ⟨[s], by rw [hwr]; simp [hw1c]⟩,
           by rw [hwr]; simp [hw1f], ?_⟩
         right; right
-        refine ⟨0, by simp, rfl, by rw [hwr]; simp [hw1j], by rw [hwr]; simp [hw1w], r, ?_, by simp, rfl, by simp⟩
+        refine ⟨0, by simp, rfl, by rw [hwr]; simp [hw1j], by rw [hwr]; simp [hw1w], p0, ?_, by simp [hp0a], hp0t, by simp [hp0p]⟩
         rw [hwr]; simp only; rw [hw1r]; exact hp
       · rw [hW] at hb hwr; simp only at hb hwr; subst hb
         simp only
@@ -124,7 +131,7 @@ theorem stmtLoop_spec (sm : List String) :
           rw [hw2r, findRev_upsert]; simp
         have hlen2 : (bump sm r).applied + rest.length ≤ sm.length := by
           rw [hr1a]; simp at hlen; omega
-        have post := ih w2 (bump sm r) hp2 hlen2
+        have post := ih w2 (bump sm r) (fun _ => hp2) ⟨_, hp2, rfl, rfl, rfl⟩ hlen2
         have hoth : ∀ v, v ≠ r.version → findRev v w2.revs = findRev v w.revs := by
           intro v hv
           rw [hw2r, findRev_upsert, if_neg]
@@ -152,6 +159,11 @@ theorem stmtLoop_spec (sm : List String) :
             refine ⟨t + 1, by simp; omega, c2, by rw [c3, hj2]; simp, by rw [c4, hwf2], p,
               by rw [← hr1v]; exact c5, by rw [c6, hr1a]; omega, by rw [c7, hr1t], ?_⟩
             rw [c8, hr1p, hr1a, List.append_assoc, hdt]
+
+theorem stmtLoop_spec (sm : List String) (rest : List Text) (w : World) (r : Revision)
+    (hp : findRev r.version w.revs = some r) (hlen : r.applied + rest.length ≤ sm.length) :
+    LoopPost sm rest w r (stmtLoop sm rest w r) :=
+  stmtLoop_spec_weak sm rest w r (fun _ => hp) ⟨r, hp, rfl, rfl, rfl⟩ hlen
 
 /-! ### one `Execute` -/
 
@@ -199,8 +211,10 @@ theorem execute_spec (H : Text → String) (w : World) (m : MFile) (a : Nat)
     (hst : a < m.stmts.length ∨ findRev m.version w.revs = none) :
     FilePost H m a w (execute true H w m) := by
   obtain ⟨hra, hrt, hrp, hrv⟩ := loadRev_spec H w m a hrec
+  have hrh : findRev m.version w.revs = none → (loadRev w m).hash = m.hash := by
+    intro hn; unfold loadRev; rw [hn]
   unfold execute
-  generalize loadRev w m = r at hra hrt hrp hrv
+  generalize loadRev w m = r at hra hrt hrp hrv hrh
   rcases hW : writeRevision w r with ⟨w1, b1⟩
   rcases writeRevision_cases w r with ⟨hb, hw1⟩ | ⟨hb, hw1⟩
   · -- the "mark as started" write failed
@@ -237,24 +251,50 @@ theorem execute_spec (H : Text → String) (w : World) (m : MFile) (a : Nat)
     unfold runStmts
     have hle : ¬ r.applied > m.stmts.length := by rw [hra]; omega
     simp only [hle, if_false, if_true]
-    rw [total_eta r _ hrt]
-    have hlen : r.applied + (m.stmts.drop r.applied).length ≤ (sums H m.stmts).length := by
+    -- the in-memory revision now carries the current length and hash of the file
+    have hra2 : ({ r with total := m.stmts.length, hash := m.hash } : Revision).applied = a := hra
+    have hrt2 : ({ r with total := m.stmts.length, hash := m.hash } : Revision).total = m.stmts.length := rfl
+    have hrp2 : ({ r with total := m.stmts.length, hash := m.hash } : Revision).partialHashes = (sums H m.stmts).take a := hrp
+    have hrv2 : ({ r with total := m.stmts.length, hash := m.hash } : Revision).version = m.version := hrv
+    have hweak : ∃ p, findRev ({ r with total := m.stmts.length, hash := m.hash } : Revision).version w1.revs = some p ∧
+        p.applied = ({ r with total := m.stmts.length, hash := m.hash } : Revision).applied ∧
+        p.total = ({ r with total := m.stmts.length, hash := m.hash } : Revision).total ∧
+        p.partialHashes = ({ r with total := m.stmts.length, hash := m.hash } : Revision).partialHashes :=
+      ⟨r, hp1, rfl, hrt, rfl⟩
+    have hnil : m.stmts.drop ({ r with total := m.stmts.length, hash := m.hash } : Revision).applied = [] →
+        findRev ({ r with total := m.stmts.length, hash := m.hash } : Revision).version w1.revs =
+          some { r with total := m.stmts.length, hash := m.hash } := by
+      intro hd
+      have hge : m.stmts.length ≤ r.applied := by simpa using hd
+      have hfresh : findRev m.version w.revs = none := by
+        rcases hst with h | h
+        · omega
+        · exact h
+      have heq : ({ r with total := m.stmts.length, hash := m.hash } : Revision) = r := by
+        have h1 := hrh hfresh
+        cases r; simp at hrt h1; simp [hrt, h1]
+      rw [heq]; exact hp1
+    have hoth1' : ∀ v, v ≠ m.version → findRev v w1.revs = findRev v w.revs := hoth1
+    clear hp1 hrh hoth1
+    generalize ({ r with total := m.stmts.length, hash := m.hash } : Revision) = r' at hra2 hrt2 hrp2 hrv2 hweak hnil ⊢
+    rw [show r.applied = r'.applied from by rw [hra, hra2]]
+    have hlen : r'.applied + (m.stmts.drop r'.applied).length ≤ (sums H m.stmts).length := by
       simp; omega
-    have post := stmtLoop_spec (sums H m.stmts) (m.stmts.drop r.applied) w1 r hp1 hlen
-    rcases hL : stmtLoop (sums H m.stmts) (m.stmts.drop r.applied) w1 r with ⟨w2, r2, res2⟩
+    have post := stmtLoop_spec_weak (sums H m.stmts) (m.stmts.drop r'.applied) w1 r' hnil hweak hlen
+    rcases hL : stmtLoop (sums H m.stmts) (m.stmts.drop r'.applied) w1 r' with ⟨w2, r2, res2⟩
     rw [hL] at post
     have hoth2 : ∀ v, v ≠ m.version → findRev v w2.revs = findRev v w.revs := by
-      intro v hv; rw [post.other v (by rw [hrv]; exact hv), hoth1 v hv]
+      intro v hv; rw [post.other v (by rw [hrv2]; exact hv), hoth1' v hv]
     have hf2 : w2.faults = w.faults := by rw [post.faults, hw1f]
-    have hdl : (m.stmts.drop r.applied).length = m.stmts.length - a := by simp [hra]
+    have hdl : (m.stmts.drop r'.applied).length = m.stmts.length - a := by simp [hra2]
     rcases post.shape with ⟨a1, a2, a3, a4, a5, a6, a7, a8⟩ | ⟨t, b1, b2, b3, b4, b5, b6, b7, b8, p, b9, b10, b11, b12⟩ |
         ⟨t, c1, c2, c3, c4, p, c5, c6, c7, c8⟩
     · -- all statements done: the deferred final write
       simp only at a1 a2 a3 a4 a5 a6 a7 a8
       subst a1
       simp only [deferred]
-      have hr2L : r2.applied = m.stmts.length := by rw [a5, hdl, hra]; omega
-      have hr2t : r2.total = m.stmts.length := by rw [a7, hrt]
+      have hr2L : r2.applied = m.stmts.length := by rw [a5, hdl, hra2]; omega
+      have hr2t : r2.total = m.stmts.length := by rw [a7, hrt2]
       rcases hW3 : writeRevision w2 { r2 with partialHashes := [] } with ⟨w3, b3⟩
       rcases writeRevision_cases w2 { r2 with partialHashes := [] } with ⟨hb, hw3⟩ | ⟨hb, hw3⟩
       · rw [hW3] at hb hw3; simp only at hb hw3; subst hb
@@ -263,73 +303,73 @@ theorem execute_spec (H : Text → String) (w : World) (m : MFile) (a : Nat)
         right
         refine ⟨by simp, by simp, by simp, ?_, m.stmts.length - a, 0, by omega, by omega, ?_, ?_, ?_⟩
         · rw [← hf2]; exact faults_ne_of_fail (by rw [hW3])
-        · rw [hw3]; simp only; rw [a2, hw1j, hra]; congr 1
+        · rw [hw3]; simp only; rw [a2, hw1j, hra2]; congr 1
           rw [Nat.add_zero, List.take_of_length_le (by simp)]
         · rw [hw3]; simp only; rw [a3, hw1w]; omega
         · right
           refine ⟨by omega, rfl, r2, ?_, hr2L, hr2t⟩
-          rw [hw3]; simp only; rw [← hrv]; exact a4
+          rw [hw3]; simp only; rw [← hrv2]; exact a4
       · rw [hW3] at hb hw3; simp only at hb hw3; subst hb
         simp only [Bool.false_eq_true, if_false]
         refine ⟨fun v hv => ?_, by rw [hw3]; exact hf2, ?_⟩
         · rw [hw3]; simp only; rw [findRev_upsert, if_neg]
           · exact hoth2 v hv
-          · simp only; rw [a8, hrv]; exact fun h => hv h.symm
+          · simp only; rw [a8, hrv2]; exact fun h => hv h.symm
         · left
-          refine ⟨rfl, by rw [hw3]; simp only; rw [a2, hw1j, hra], by rw [hw3]; simp only; rw [a3, hw1w], ?_⟩
+          refine ⟨rfl, by rw [hw3]; simp only; rw [a2, hw1j, hra2], by rw [hw3]; simp only; rw [a3, hw1w], ?_⟩
           refine ⟨{ r2 with partialHashes := [] }, ?_, hr2L, hr2t⟩
-          rw [hw3]; simp only; rw [findRev_upsert, if_pos]; simp only; rw [a8, hrv]
+          rw [hw3]; simp only; rw [findRev_upsert, if_pos]; simp only; rw [a8, hrv2]
     · -- statement t failed: deferred write of the revision with the error
       simp only at b1 b2 b3 b4 b5 b6 b7 b8 b9
       subst b2
       have hlt : a + t < m.stmts.length := by rw [hdl] at b1; omega
       have hne : w.faults ≠ [] := by
         intro hnf
-        have := (stmtLoop_nofault (sums H m.stmts) (m.stmts.drop r.applied) w1 r (by rw [hw1f]; exact hnf)).1
+        have := (stmtLoop_nofault (sums H m.stmts) (m.stmts.drop r'.applied) w1 r' (by rw [hw1f]; exact hnf)).1
         rw [hL] at this; simp at this
       simp only [deferred]
       rcases hW3 : writeRevision w2 r2 with ⟨w3, b3'⟩
-      have hphash : r.partialHashes ++ ((sums H m.stmts).drop r.applied).take t = (sums H m.stmts).take (a + t) := by
-        rw [hrp, hra]; exact hashes_extend H m a t
+      have hphash : r'.partialHashes ++ ((sums H m.stmts).drop r'.applied).take t = (sums H m.stmts).take (a + t) := by
+        rw [hrp2, hra2]; exact hashes_extend H m a t
       rcases writeRevision_cases w2 r2 with ⟨hb, hw3⟩ | ⟨hb, hw3⟩
       · rw [hW3] at hb hw3; simp only at hb hw3; subst hb
         refine ⟨fun v hv => by rw [hw3]; exact hoth2 v hv, by rw [hw3]; exact hf2, ?_⟩
         right
         refine ⟨by simp, by simp, by simp, hne, t, 0, by omega, by omega, ?_, ?_, ?_⟩
-        · rw [hw3]; simp only; rw [b3, hw1j, hra]; rfl
+        · rw [hw3]; simp only; rw [b3, hw1j, hra2]; rfl
         · rw [hw3]; simp only; rw [b4, hw1w]; omega
         · left
-          refine ⟨Or.inr ⟨p, ?_, by rw [b10, hra], by rw [b11, hrt], by rw [b12, hphash]⟩, Or.inl hlt⟩
-          rw [hw3]; simp only; rw [← hrv]; exact b9
+          refine ⟨Or.inr ⟨p, ?_, by rw [b10, hra2], by rw [b11, hrt2], by rw [b12, hphash]⟩, Or.inl hlt⟩
+          rw [hw3]; simp only; rw [← hrv2]; exact b9
       · rw [hW3] at hb hw3; simp only at hb hw3; subst hb
         refine ⟨fun v hv => ?_, by rw [hw3]; exact hf2, ?_⟩
         · rw [hw3]; simp only; rw [findRev_upsert, if_neg]
           · exact hoth2 v hv
-          · rw [b6, hrv]; exact fun h => hv h.symm
+          · rw [b6, hrv2]; exact fun h => hv h.symm
         · right
           refine ⟨by simp, by simp, by simp, hne, t, 0, by omega, by omega, ?_, ?_, ?_⟩
-          · rw [hw3]; simp only; rw [b3, hw1j, hra]; rfl
+          · rw [hw3]; simp only; rw [b3, hw1j, hra2]; rfl
           · rw [hw3]; simp only; rw [b4, hw1w]; omega
           · left
-            refine ⟨Or.inr ⟨r2, ?_, by rw [b5, hra], by rw [b7, hrt], by rw [b8, hphash]⟩, Or.inl hlt⟩
-            rw [hw3]; simp only; rw [findRev_upsert, if_pos]; rw [b6, hrv]
+            refine ⟨Or.inr ⟨r2, ?_, by rw [b5, hra2], by rw [b7, hrt2], by rw [b8, hphash]⟩, Or.inl hlt⟩
+            rw [hw3]; simp only; rw [findRev_upsert, if_pos]; rw [b6, hrv2]
     · -- the write after statement t failed: no deferred write
       simp only at c1 c2 c3 c4 c5
       subst c2
       have hlt : a + t < m.stmts.length := by rw [hdl] at c1; omega
       have hne : w.faults ≠ [] := by
         intro hnf
-        have := (stmtLoop_nofault (sums H m.stmts) (m.stmts.drop r.applied) w1 r (by rw [hw1f]; exact hnf)).1
+        have := (stmtLoop_nofault (sums H m.stmts) (m.stmts.drop r'.applied) w1 r' (by rw [hw1f]; exact hnf)).1
         rw [hL] at this; simp at this
-      have hphash : r.partialHashes ++ ((sums H m.stmts).drop r.applied).take t = (sums H m.stmts).take (a + t) := by
-        rw [hrp, hra]; exact hashes_extend H m a t
+      have hphash : r'.partialHashes ++ ((sums H m.stmts).drop r'.applied).take t = (sums H m.stmts).take (a + t) := by
+        rw [hrp2, hra2]; exact hashes_extend H m a t
       simp only [deferred]
       refine ⟨hoth2, hf2, ?_⟩
       right
       refine ⟨by simp, by simp, by simp, hne, t, 1, by omega, by omega, ?_, ?_, ?_⟩
-      · simp only; rw [c3, hw1j, hra]
+      · simp only; rw [c3, hw1j, hra2]
       · simp only; rw [c4, hw1w]; exact Nat.le_refl _
       · left
-        refine ⟨Or.inr ⟨p, by rw [← hrv]; exact c5, by rw [c6, hra], by rw [c7, hrt], by rw [c8, hphash]⟩, Or.inl hlt⟩
+        refine ⟨Or.inr ⟨p, by rw [← hrv2]; exact c5, by rw [c6, hra2], by rw [c7, hrt2], by rw [c8, hphash]⟩, Or.inl hlt⟩
 
 end Atlas.Exec
